@@ -3,7 +3,7 @@
 import re
 import sys
 import warnings
-from argparse import SUPPRESS, _HelpAction, _SubParsersAction
+from argparse import SUPPRESS, _AppendAction, _HelpAction, _SubParsersAction
 from argparse import Action as ArgparseAction
 from contextlib import contextmanager
 from contextvars import ContextVar
@@ -124,7 +124,7 @@ def _is_action_value_list(action: ArgparseAction) -> bool:
     """
     if action.nargs in {"*", "+"} or (isinstance(action.nargs, int) and action.nargs != 0):
         return True
-    return False
+    return isinstance(action, _AppendAction)
 
 
 def remove_actions(parser, types):
